@@ -42,6 +42,7 @@ structure GeomAns where
   indep : Bool
   bnd : Option (Option (UInt64 × UInt64 × UInt64 × UInt64))   -- none = panic, some none = nil
   again : Bool
+  hist : Option (Option (Option (UInt64 × UInt64 × UInt64 × UInt64)))   -- absent | panic | nil/box
   mutated : Bool
 
 def pGeomAns (t : Tok) : Option GeomAns := do
@@ -66,10 +67,14 @@ def pGeomAns (t : Tok) : Option GeomAns := do
   let (again, t) := match t with
     | "again" :: d :: t => (d == "1", t)
     | _ => (true, t)
+  let (hist, t) ← match t with
+    | "hist" :: "panic" :: t => pure (some none, t)
+    | "hist" :: t => do let (r, t) ← pBoxRes t; pure (some (some r), t)
+    | t => pure (none, t)
   let mutd ← match t with
     | ["mut", d] => pure (d == "1")
     | _ => none
-  pure { len := len, ptsOk := ptsOk, ptsNoLen := noLen, pts := pts, indep := indep, bnd := bnd, again := again, mutated := mutd }
+  pure { len := len, ptsOk := ptsOk, ptsNoLen := noLen, pts := pts, indep := indep, bnd := bnd, again := again, hist := hist, mutated := mutd }
 
 def geomClass : BGeom → String
   | .point _ => "point" | .multiPoint _ => "multipoint" | .lineString _ => "linestring"
@@ -133,7 +138,17 @@ def judgeGeom (g : BGeom) (rhs : Tok) : String :=
           | some b =>
             if !isEnvelopeB (vertices gk) b then some "Bounds-is-not-the-envelope-of-the-vertices"
             else if !a.again then some "second-Bounds-call-differs"
-            else none
+            else match a.hist with
+            | none => none
+            | some none => some "Bounds-panicked-after-the-caller-mutated-an-earlier-result"
+            | some (some none) => some "Bounds-nil-after-the-caller-mutated-an-earlier-result"
+            | some (some (some q2)) =>
+              match kbox q2 with
+              | none => some "Bounds-NaN"
+              | some b2 =>
+                if !isEnvelopeB (vertices gk) b2 then
+                  some "Bounds-depends-on-call-history:-after-the-caller-mutated-an-earlier-result-it-is-not-the-envelope"
+                else none
     match spec with
     | some why => s!"SPEC {cls} {why}"
     | none =>
@@ -196,6 +211,50 @@ def judgeLine (line : String) : String :=
     match Proto.pGeom 64 gt with
     | some (g, []) => judgeGeom g rhs
     | _ => "DIFF geom unparsable-input"
+  | "hist" :: t =>
+    -- `Bounds()` is a pure function of the geometry in the model; any dependence of the
+    -- implementation's answer on what happened before (other calls, caller-side mutation of
+    -- earlier results) therefore shows up as SPEC (not the envelope) or DIFF (not the model's box).
+    let rec splitBar : Tok → List Tok → Tok → List Tok
+      | [], acc, cur => (cur.reverse :: acc).reverse
+      | "|" :: r, acc, cur => splitBar r (cur.reverse :: acc) []
+      | x :: r, acc, cur => splitBar r acc (x :: cur)
+    let gsT := splitBar t [] []
+    let gs := gsT.map fun gt => match Proto.pGeom 64 gt with | some (g, []) => some g | _ => none
+    if gs.any (·.isNone) then "DIFF hist unparsable-input" else
+    let gs := gs.filterMap id
+    let rec results : Nat → Tok → Option (List (Option (Option (UInt64 × UInt64 × UInt64 × UInt64))))
+      | 0, [] => some []
+      | 0, _ => none
+      | n+1, "panic" :: r => do let rest ← results n r; pure (none :: rest)
+      | n+1, r => do let (q, r') ← pBoxRes r; let rest ← results n r'; pure (some q :: rest)
+    match results (2 * gs.length) rhs with
+    | none => s!"DIFF hist unparsable-answer {" ".intercalate (rhs.take 6)}"
+    | some rs =>
+      let pairs := (gs ++ gs).zip rs
+      let verdicts := pairs.map fun (g, r) =>
+        match geomKey g with
+        | none => (none : Option String)
+        | some gk =>
+          let inHyp := noNil g && boxesNonEmpty gk
+          match r with
+          | none => if noNil g then some "SPEC Bounds-panicked" else none
+          | some none => some "SPEC Bounds-nil"
+          | some (some q) =>
+            match kbox q with
+            | none => some "SPEC Bounds-NaN"
+            | some b =>
+              if inHyp && !isEnvelopeB (vertices gk) b then
+                some s!"SPEC Bounds-of-{geomClass g}-depends-on-call-history:-not-the-envelope-of-its-vertices"
+              else match boundsG gk with
+                | .ok mb => if mb == b then none else if inHyp then some "DIFF model-differs" else none
+                | .error _ => some "DIFF model-faults"
+      match verdicts.filterMap id with
+      | [] => "OK hist"
+      | w :: _ =>
+        match w.splitOn " " with
+        | k :: rest => s!"{k} hist {" ".intercalate rest}"
+        | [] => "DIFF hist ?"
   | ["new"] =>
     if rhs == ["ok", "7ff0000000000000", "7ff0000000000000", "fff0000000000000", "fff0000000000000"]
     then "OK new" else "SPEC new NewBounds-is-not-the-empty-box"
